@@ -19,3 +19,5 @@ def run(prog, rep):
     _ro2.run_attr_search(prog, rep)
     from ..rules import r_safe as _rsn
     _rsn.run_namebuf(prog, rep)
+    r_del.run_break_cycles(prog, rep)
+    r_del.run_section_selflink(prog, rep)
